@@ -1006,6 +1006,33 @@ def canon_line(g1, g2):
     return f"canon {a} | {b}"
 
 
+def refine_lines(g1, g2):
+    """driver lines for the colour-refinement model (RV/C14/Canon.lean `refineInit`, `canonRefine`): triples are coded
+    with the pair's shared vocabulary and de-duplicated by CODE (equal rdflib terms share a code; the model reads the
+    list as the graph's triples, the store holds each triple once)"""
+    a, b, _ = encode_pair(g1, g2)
+
+    def uniq(txt):
+        ws = txt.split()
+        seen, out = set(), []
+        for k in range(0, len(ws), 3):
+            t = tuple(ws[k:k + 3])
+            if t not in seen:
+                seen.add(t)
+                out.extend(t)
+        return " ".join(out)
+    a, b = uniq(a), uniq(b)
+    return [f"refinestat {a}", f"refinestat {b}", f"canonrefine {a} | {b}"]
+
+
+def refine_stats_obs(st):
+    """PUBLIC observable of the initial refinement: the `stats` dict of to_canonical_graph / graph_digest
+    (number of colours after the initial `_refine` minus the ground neighbours = number of blank-node cells;
+    `individuations` == 0 <=> the refined colouring was already discrete, no search)"""
+    cells = int(st.get("initial_color_count", 0)) - int(st.get("adjacent_nodes", 0))
+    return cells, int(st.get("individuations", 0)) == 0
+
+
 def pair_model_line(case):
     g1, g2 = case["g1"], case["g2"]
     if small(g1, g2):
@@ -1020,7 +1047,8 @@ def model_lines(case):
         l = pair_model_line(case)
         if not l:
             return []
-        return [l, "diff"] + ([canon_line(case["g1"], case["g2"])] if canon_ok(case["g1"], case["g2"]) else [])
+        return ([l, "diff"] + ([canon_line(case["g1"], case["g2"])] if canon_ok(case["g1"], case["g2"]) else [])
+                + refine_lines(case["g1"], case["g2"]))
     if case["kind"] == "skolem":
         return [] if k2_case(case) else [skolem_line(case)]
     if case["kind"] == "exh":
@@ -1042,7 +1070,9 @@ def select_model_obs(case, out):
     if case["kind"] == "pair":
         if not out:
             return []
-        return [out[0]] * 4 + ["diff " + out[1]] + (["canon-search-verdict " + out[2]] if len(out) > 2 else [])
+        n = 3 if canon_ok(case["g1"], case["g2"]) else 2
+        return ([out[0]] * 4 + ["diff " + out[1]] + (["canon-search-verdict " + out[2]] if n == 3 else [])
+                + ["refine-stats g1 " + out[n], "refine-stats g2 " + out[n + 1], "canon-refine-verdict " + out[n + 2]])
     if case["kind"] == "skolem":
         return ["skolem-roundtrip-iso " + out[0]] if out else []
     if case["kind"] == "hist":
@@ -1214,7 +1244,8 @@ def run_pair(case):
         ok4, r_dig = call(viol, "graph_digest", lambda: to_isomorphic(g1).graph_digest() == to_isomorphic(g2).graph_digest()) if ok else (False, None)
     else:
         ok4, r_dig = ok3, r_eq
-    ok5, cgs = call(viol, "to_canonical_graph", lambda: (set(to_canonical_graph(g1)), set(to_canonical_graph(g2)))) if ok else (False, None)
+    st1, st2 = {}, {}
+    ok5, cgs = call(viol, "to_canonical_graph", lambda: (set(to_canonical_graph(g1, stats=st1)), set(to_canonical_graph(g2, stats=st2)))) if ok else (False, None)
     ok6, diff = call(viol, "graph_diff", lambda: tuple(set(x) for x in graph_diff(g1, g2))) if ok else (False, None)
     if not (ok and ok2 and ok3 and ok4 and ok5 and ok6):
         return {"obs": [], "viol": viol, "nontrivial": True, "key": "abort", "stats": stats}
@@ -1269,6 +1300,15 @@ def run_pair(case):
         obs = [b2s(r_iso), b2s(r_eq), b2s(r_dig), b2s(r_can), "diff %s %s %s" % (b2s(d1), b2s(d2), b2s(d3))]
         if canon_ok(g1s, g2s):
             obs.append("canon-search-verdict " + b2s(r_can))
+        # the colour-refinement model, through the public `stats` of to_canonical_graph
+        (k1, dis1), (k2, dis2) = refine_stats_obs(st1), refine_stats_obs(st2)
+        obs.append("refine-stats g1 cells=%d discrete=%s" % (k1, b2s(dis1)))
+        obs.append("refine-stats g2 cells=%d discrete=%s" % (k2, b2s(dis2)))
+        obs.append("canon-refine-verdict " + (b2s(r_can) if dis1 and dis2 else "n/a"))
+        stats["refine_stats_lines"] = 2
+        stats["refine_discrete_graphs"] = int(dis1) + int(dis2)
+        if dis1 and dis2:
+            stats["canon_refine_verdicts"] = 1
     refine_probe(g1s, stats)
     prof = (profile(g1s), profile(g2s))
     nontrivial = any(c > 1 for pr in prof for c in pr)
